@@ -2,7 +2,13 @@
 //! idioms, runs the REAL `normalize_basic()` and then the REAL `normalize_optimize()` (together:
 //! `Project::normalize()`), and writes the program before and after the optimizing passes. The Lean
 //! driver runs the executable `WellSized` checker on the real output and the composed pass models.
+//!
+//! Second stream (the lifting half, end to end): generated P-Code projects (generator of `h_c11.rs`)
+//! -> REAL `parse_pcode_project_to_ir_project` (P-Code normalization, `into_ir_project`, sub-register
+//! replacement) -> REAL `Project::normalize()`; case line `{"pcode": .., "lifted": <program>, "norm": <program>}`.
+//! The driver evaluates the domain (`projectOk`, `projectSized`) and runs the checker on both programs.
 use cwe_checker_lib::intermediate_representation::*;
+use cwe_checker_lib::utils::ghidra::parse_pcode_project_to_ir_project;
 use std::collections::BTreeMap;
 use verif_harness::ir::*;
 use verif_harness::*;
@@ -10,6 +16,54 @@ use verif_harness::*;
 #[path = "c10_common/mod.rs"]
 mod common;
 use common::*;
+
+#[path = "h_c11.rs"]
+#[allow(dead_code)]
+mod pcode_gen;
+
+/// P-Code stream: real lifting, then real `normalize()`; `(case line, lifted and normalized without panic)`
+fn pcode_case_line(pcode_json: &Value, out: &mut Out) -> (String, bool) {
+    out.count("stream:pcode");
+    let project: cwe_checker_lib::pcode::Project = match serde_json::from_value(pcode_json.clone()) {
+        Ok(p) => p,
+        Err(e) => {
+            let line = json!({"pcode": pcode_json, "lifted": format!("parse-error:{}", e), "norm": Value::Null});
+            return (line.to_string(), false);
+        }
+    };
+    let r = catch(move || parse_pcode_project_to_ir_project(project, &[], &None));
+    let (lifted, norm, ok) = match r {
+        Ok(Ok((ir, _logs))) => {
+            let lifted = program_to_json(&ir.program.term);
+            let n = catch(std::panic::AssertUnwindSafe(move || {
+                let mut q = ir;
+                let _ = q.normalize();
+                q
+            }));
+            match n {
+                Ok(q) => {
+                    let norm = program_to_json(&q.program.term);
+                    let s = norm.to_string();
+                    out.count_n("norm:piece", s.matches("\"Piece\"").count() as u64);
+                    out.count_n("norm:subpiece", s.matches("\"Subpiece\"").count() as u64);
+                    out.count_n("norm:loaded_value", s.matches("loaded_value").count() as u64);
+                    (lifted, norm, true)
+                }
+                Err(p) => {
+                    out.count("pcode:normalize-panic");
+                    (lifted, Value::String(panic_token(&p)), false)
+                }
+            }
+        }
+        Ok(Err(e)) => (json!(format!("error:{}", e)), Value::Null, false),
+        Err(p) => {
+            out.count("pcode:lift-panic");
+            (Value::String(panic_token(&p)), Value::Null, false)
+        }
+    };
+    let line = json!({"pcode": pcode_json, "lifted": lifted, "norm": norm});
+    (line.to_string(), ok)
+}
 
 fn case_line(pb: &Project, out: &mut Out) -> (String, bool) {
     let mut p = pb.clone();
@@ -39,11 +93,20 @@ fn main() {
         "generated well-sized programs (1-3 functions, 1-4 blocks; nested piece/subpiece/zero- and sign-extension, \
          sub-register write idioms, shifts with 1-byte amounts, 1/2/4/8/16-byte values, boolean flags, loads/stores, \
          stack-pointer masking) -> real normalize_basic -> real normalize_optimize -> program before/after; \
-         non-trivial = the optimizing passes changed the program; distinct by program text",
+         non-trivial = the optimizing passes changed the program; distinct by program text. Second stream: random \
+         P-Code projects (generator of the C11 harness: 4 register-table styles, nested sub-registers, RAM operands, \
+         sub-register-write + cast idioms, all jump kinds) -> real lifting -> real normalize(); non-trivial = lifted \
+         and normalized without panic",
     );
     if let Some(lines) = args.replay_lines() {
         for line in lines {
             let v: Value = serde_json::from_str(&line).expect("replay line");
+            if v.get("pcode").is_some() {
+                let (l, ok) = pcode_case_line(&v["pcode"], &mut out);
+                let key = v["pcode"].to_string();
+                out.case(&l, if ok { Some(&key) } else { None });
+                continue;
+            }
             let mut project = project_x64(program_from_json(&v["pb"]));
             if let Some(a) = v["arch"].as_str() {
                 project.cpu_architecture = a.to_string();
@@ -81,6 +144,17 @@ fn main() {
     }
     for (k, v) in counts {
         out.count_n(&k, v);
+    }
+    // the P-Code stream (own generator state: the IR stream above is unchanged by it)
+    let mut prng = Rng::new(args.seed ^ 0x5ca1_ab1e);
+    let projects = args.num("projects", 600, 15000);
+    for _ in 0..projects {
+        let (mut p, kind) = pcode_gen::gen_project(&mut prng, 6);
+        pcode_gen::strip_nulls(&mut p);
+        out.count(&format!("pcode-kind:{}", kind.split('-').next().unwrap()));
+        let (l, ok) = pcode_case_line(&p, &mut out);
+        let key = p.to_string();
+        out.case(&l, if ok { Some(&key) } else { None });
     }
     out.finish();
 }
